@@ -6,7 +6,7 @@ import GuppyVerif.Util.Sexp
     stmt  = `(move (place…) (place…))` | `(call (place…) (arg…) <0|1>)` | `(ret place…)`
     arg   = `(o place)` | `(b place)`
     place = `(p <var|-> <0|1> leaf…)`
-    reply: `ok` | `err <class>` -/
+    reply: `ok (b x…)…` (place-level live_before of the inner blocks) | `err <class>` | `bad-wf` (the CFG does not have the shape `Prog.WF`) -/
 open GuppyVerif GuppyVerif.Linearity
 
 def fieldC06? (tag : String) (e : Sexp) : Option (List Nat) :=
@@ -79,13 +79,26 @@ def errName : Err → String
   | .crash => "crash"
   | .fuel => "fuel"
 
+def insSorted (x : Nat) : List Nat → List Nat
+  | [] => [x]
+  | y :: ys => if x < y then x :: y :: ys else if x == y then y :: ys else y :: insSorted x ys
+
+/-- ` (b x…)…` for the blocks other than entry and exit, leaves sorted and deduplicated -/
+def showLive (P : Prog) : String :=
+  match liveOf P with
+  | none => " no-live"
+  | some rows =>
+    String.join ((rows.filter fun r => r.1 != P.entry && r.1 != P.exit).map fun r =>
+      " (" ++ " ".intercalate ((r.1 :: r.2.foldr insSorted []).map toString) ++ ")")
+
 def handleC06 (line : String) : String :=
   match Sexp.parse line with
   | some e =>
     match prog? e with
     | some P =>
+      if !P.wfb then "bad-wf" else
       match checkCfg P with
-      | .ok _ => "ok"
+      | .ok _ => "ok" ++ showLive P
       | .error er => "err " ++ errName er
     | none => "bad-op"
   | none => "bad-op"
